@@ -148,6 +148,14 @@ func DoConstructSequenceDiagrams(
 				} else if len(cmdContextParam.Group) > 0 {
 					logger.Warnf("Ignoring groupby passed from command line")
 				}
+				// a blackbox that this endpoint states again is the endpoint's for this diagram only: the
+				// application's entry comes back for the diagrams that follow
+				shadowed := map[string]*cmdutils.Upto{}
+				for indx := range bbs2 {
+					if upto, has := bbsAll[bbs2[indx][0]]; has && upto.ValueType == cmdutils.BBApplication {
+						shadowed[bbs2[indx][0]] = upto
+					}
+				}
 				cmdutils.TransformBlackboxesToUptos(bbsAll, bbs2, cmdutils.BBEndpointCollection)
 				sd = &SequenceDiagParam{
 					Endpoints:       sdEndpoints,
@@ -164,6 +172,9 @@ func DoConstructSequenceDiagrams(
 				}
 				for indx := range bbs2 {
 					delete(bbsAll, bbs2[indx][0])
+					if upto, has := shadowed[bbs2[indx][0]]; has {
+						bbsAll[bbs2[indx][0]] = upto
+					}
 				}
 				result[outputDir] = out
 			}
